@@ -32,6 +32,7 @@ def run(prog, chk):
     scope_vars_complete(prog, chk)
     reuse_overrides_evaluated(prog, chk)
     own_attributes_outside_scope(prog, chk)
+    own_attributes_before_content(prog, chk)
     pops_follow_pushes(prog, chk)
     scan_continues_past_undefined(prog, chk)
     reuse_scope_encloses_instance(prog, chk)
@@ -40,6 +41,26 @@ def run(prog, chk):
     strops.check_for(prog, chk, "C15")  # A14.str-ops: where a `$name` ends is a reviewed inventory of searches and character classes
     from props import C18
     C18.template_source(prog, chk)  # a <reuse> copies the element as written: what $k means inside the copy is decided at the reuse site, not at the definition
+
+
+def own_attributes_before_content(prog, chk):
+    """an element's opening tag is evaluated where it stands - before its content is processed: in every element
+    processor that both evaluates attributes (eval_attributes) and processes content (process_events), the evaluation
+    dominates the content call.  Otherwise a <var> inside the content changes what the opening tag's `$name` means."""
+    n = 0
+    for b in prog.bodies.values():
+        if b.unit != "svgdx-lib" or not b.path.endswith("generate_events"):
+            continue
+        ev = b.call_sites(R.path_endswith("SvgElement::eval_attributes"))
+        pe = b.call_sites(lambda c: c.path == "svgdx::transform::process_events")
+        if not ev or not pe:
+            continue
+        chk.touch(b)
+        for (pb, pt, pc) in pe:
+            n += 1
+            ok = any(b.dominates(eb, pb) and eb != pb for (eb, et, ec) in ev)
+            chk.ob(ok, "A13.own-attrs-before-content", b.short, b.where(pb, pt.get("line")), "the element's attributes are evaluated before its content is processed", f"{b.short} processes the element's content before (or without) evaluating the attributes of its opening tag: a variable assigned inside the content is seen by the opening tag that precedes it")
+    chk.floor("A13.own-attrs-before-content", n, 3, "process_events call in an element processor that also evaluates attributes")
 
 
 def reuse_scope_encloses_instance(prog, chk):
